@@ -19,7 +19,8 @@ def _digests(profile, base_seed, n, workers):
     from dst import batch
     prop = None
     agg = batch.search(profile, prop, base_seed, n, workers=workers,
-                       stop_on_violation=False, chunk=max(1, n // (workers * 3) or 1))
+                       stop_on_violation=False, chunk=max(1, n // (workers * 3) or 1),
+                       opts={'digests': True})
     return {int(k): v for k, v in agg['digests'].items()}, agg
 
 
